@@ -657,6 +657,28 @@ def r16_grid_size_flags_pairing(idx, r):
     pairing_rule(idx, r, ["armi.reactor.blueprints"], 100)
 
 
+def r17_corner_lines_and_shapes(idx, r):
+    """(a) a flats-up hex text map with trimmed corners: how many lines were trimmed is read off the LENGTH of the bottom text row - every
+    position of it, placeholders included.  Counting only the filled positions shifts every entry of a map that has a hole in its bottom row.
+    (b) argument pairing over the component shapes (constructor arguments reach `_linkAndStoreDimensions` under their own names)."""
+    from ..pairing import pairing_rule
+    n = 0
+    for c in idx.module("armi.utils.asciimaps").all_funcs():
+        if c.name != "_updateDimensionsFromAsciiLines":
+            continue
+        env = single_assign_env(c.node)
+        for s_ in iter_stores(c.node):
+            if s_.chain == "self._asciiLinesOffCorner" and s_.value is not None:
+                n += 1
+                v = propagate(s_.value, env)
+                txt = norm(v)
+                r.require("PLACEHOLDER" not in txt and "len(self.asciiLines[" in txt and not any(isinstance(x, (ast.ListComp, ast.GeneratorExp)) for x in ast.walk(v)), f"{c.qualname}:trimmed-corner-lines-from-the-row-length", c, node=s_.stmt,
+                          msg=f"`{txt[:80]}`: the number of trimmed corner lines is not the plain length of a text row - placeholders are positions too, and a map with a hole in that row is read at shifted indices")
+    if n < 1:
+        raise AnchorMissing("asciimaps: _asciiLinesOffCorner from the ascii lines")
+    pairing_rule(idx, r, ["armi.reactor.components", "armi.utils.asciimaps"], 30)
+
+
 def run(idx, chk):
     chk.explanation = (
         "C18 is a relation between an input document and an object graph; static analysis claims only: (1) each lattice-map class reads and "
@@ -699,3 +721,5 @@ def run(idx, chk):
                  necessary="an inconsistent blueprint is refused with an error")
     chk.run_rule("R18.16", "_getGridSize is the extent per axis (evaluated); explicit assembly flags replace derived ones; arguments stand at their parameter", lambda r: r16_grid_size_flags_pairing(idx, r), floor=3,
                  necessary="every specifier of the map lands on the cell drawn; objects carry the flags and nuclide options the blueprint states")
+    chk.run_rule("R18.17", "trimmed corner lines are counted from the full row length; shape constructors hand each dimension on under its own name", lambda r: r17_corner_lines_and_shapes(idx, r), floor=2,
+                 necessary="every entry of a lattice map lands on the cell it is drawn at; components have the cold dimensions the blueprint states")
